@@ -60,7 +60,6 @@ Section NormOrd.
 Variable doc : xdoc.
 Hypothesis Hord : DocOrd doc.
 Variable ns : list (option str * str).
-Hypothesis Hns : ns_lookup ns None = None.
 Let Hwf := ord_wf doc Hord.
 Let HK := ord_keys doc Hord.
 Let HS := ord_dos doc Hord.
@@ -121,7 +120,7 @@ Qed.
 
 Theorem xeval_norm_ord : forall a n, V n -> okq (xeval doc a n) (xeval doc (norm a) n).
 Proof.
-  intros a. apply (xeval_norm_gen doc ns Hns V any_axis anyax V_axis' (valid_parent doc Hwf) (root_of_valid doc Hwf)
+  intros a. apply (xeval_norm_gen doc ns V any_axis anyax V_axis' (valid_parent doc Hwf) (root_of_valid doc Hwf)
                      (fun _ _ => eq_refl) eq_refl path_norm_ord a (xaxes_any a)).
 Qed.
 
